@@ -311,6 +311,12 @@ func runWatcherSchedule(sp spec, b backend) outcome {
 		}
 		var n string
 		ob.Key, ob.Owner, ob.TTL, n = b.look()
+		if (o.K == kReg || o.K == kStop) && ob.Key {
+			// between these operations and the next MTickAll a background tick of any
+			// registered registrant may or may not have refreshed the key: the TTL of an
+			// existing key is compared only where it is settled (Ephemeral.mask_ttl)
+			ob.TTL = 0
+		}
 		note(n)
 		if o.K == kTick || o.K == kStop {
 			ob.Closed = flags()
